@@ -23,13 +23,20 @@ package twig
 // (no extension, unknown extension, inline template)
 //@ func twig.(*autoEscapeVisitor).guessTypeFromName
 //@   ensures known: result == "txt" || result == "html" || (v.ext != nil && in(v.ext.Escapers, result))
-//@ func twig.(*autoEscapeVisitor).current
-//@   inline
-//@ func twig.(*autoEscapeVisitor).push
-//@   inline
-//@ func twig.(*autoEscapeVisitor).pop
-//@   inline
-// C12: entering a print statement wraps its expression in escape(<expr>, <content type on top of the stack>)
+// C12: entering a module or a block escapes the print statements below it (not those of nested blocks, which are
+// entered on their own) for the content type of its defining template; a print statement's expression X becomes
+// escape(X, <content type>)
 //@ func twig.(*autoEscapeVisitor).Enter
-//@   ensures wrapped: istype(n, "*parse.PrintNode") ==> istype(unbox(n, "*parse.PrintNode").X, "*parse.FilterExpr") && unbox(unbox(n, "*parse.PrintNode").X, "*parse.FilterExpr").FuncExpr.Name == "escape" && len(unbox(unbox(n, "*parse.PrintNode").X, "*parse.FilterExpr").FuncExpr.Args) == 2 && unbox(unbox(n, "*parse.PrintNode").X, "*parse.FilterExpr").FuncExpr.Args[0] == old(unbox(n, "*parse.PrintNode").X) && istype(unbox(unbox(n, "*parse.PrintNode").X, "*parse.FilterExpr").FuncExpr.Args[1], "*parse.StringExpr") && unbox(unbox(unbox(n, "*parse.PrintNode").X, "*parse.FilterExpr").FuncExpr.Args[1], "*parse.StringExpr").Text == old(ite(len(v.stack) == 0, "", v.stack[len(v.stack) - 1]))
+//@ func twig.(*autoEscapeVisitor).escapePrints
+//@   ensures wrapped: istype(n, "*parse.PrintNode") ==> istype(unbox(n, "*parse.PrintNode").X, "*parse.FilterExpr") && unbox(unbox(n, "*parse.PrintNode").X, "*parse.FilterExpr").FuncExpr.Name == "escape" && len(unbox(unbox(n, "*parse.PrintNode").X, "*parse.FilterExpr").FuncExpr.Args) == 2 && unbox(unbox(n, "*parse.PrintNode").X, "*parse.FilterExpr").FuncExpr.Args[0] == old(unbox(n, "*parse.PrintNode").X) && istype(unbox(unbox(n, "*parse.PrintNode").X, "*parse.FilterExpr").FuncExpr.Args[1], "*parse.StringExpr") && unbox(unbox(unbox(n, "*parse.PrintNode").X, "*parse.FilterExpr").FuncExpr.Args[1], "*parse.StringExpr").Text == ct
+// nested blocks are left to their own Enter: nothing below a block node is touched here
+//@   at "v.escapePrints(c, ct)" descend: !istype(n, "*parse.BlockNode") && !istype(n, "*parse.PrintNode") && c != nil
+//@   loop 1 invariant true
 //@ func twig.(*autoEscapeVisitor).Leave
+
+// C18: the auto-escape extension and its node visitor are shared by every parse on the environment: they are never
+// written after construction (the visitor used to keep a stack of content types: fixed)
+//@ fieldframe twig.AutoEscapeExtension only twig.NewAutoEscapeExtension
+//@ fieldframe twig.autoEscapeVisitor only
+//@ mapframe map[string]Escaper only
+//@ globalframe only twig.init
